@@ -35,9 +35,12 @@ META = dict(
                "is forced with real threads; a free-running stress run looks for a real wait-for cycle.",
     level_note="Partial: workload coverage is the assumption - paths that the workload does not exercise contribute "
                "no facts (entry points x roles driven are listed in the evidence). Real-thread scheduling is "
-               "modelled by the facts (RLock mutual exclusion, re-entrancy). Thread.join under _lock_local in "
-               "dist.join() and pool.join() under the handler lock wait for threads, not locks: documented "
-               "non-finding. Queue operations: every put/get that could wait is recorded with the locks held; one that "
+               "modelled by the facts (RLock mutual exclusion, re-entrancy). Thread.join on the distributed "
+               "component's incoming / outgoing thread is a fact too: a request for the pseudo-lock alive:<role> "
+               "which the joined thread holds from start to end (this is how D19, join() under _lock_local, was "
+               "found and forced). pool.join() under the handler lock waits for pool-internal threads, which take "
+               "no bobocep lock except through a user action calling receiver.add_data (recorded as role "
+               "pool-worker): not part of the elimination. Queue operations: every put/get that could wait is recorded with the locks held; one that "
                "would really wait (full/empty queue, no timeout) is a failure - the bounded workloads fill the outgoing "
                "queue to provoke it.",
     rule="one case per distinct recorded fact (non-trivial = the thread already held a lock) plus random small "
